@@ -69,6 +69,7 @@ fn main() {
         ("hitobj", "replay") => hitobj::replay(&args, &mut s),
         ("hitobj", "record") => hitobj::record(&args, &mut s),
         ("hitobj", "c06rel") => hitobj::c06_relation(&args, &mut s),
+        ("hitobj", "codec") => hitobj::codec(&args, &mut s),
         ("timing", "c06rel") => timing::c06_relation(&args, &mut s),
         ("timing", "order") => timing::order_replay(&args, &mut s),
         ("timing", "shape") => timing::shape_relation(&args, &mut s),
